@@ -76,6 +76,27 @@ impl PlanOpts {
     }
 }
 
+/// deflateCopy-and-continue variant of a session, selected by the LAST tape byte (>= 0xE0, one case in eight) so
+/// that the decoding of everything else - and of every saved regression tape - is unchanged: returns the tape
+/// without its two suffix bytes and the position byte
+pub fn split_copy_suffix(tape: &[u8]) -> (&[u8], Option<u8>) {
+    if tape.len() >= 3 && tape[tape.len() - 1] >= 0xE0 {
+        (&tape[..tape.len() - 2], Some(tape[tape.len() - 2]))
+    } else {
+        (tape, None)
+    }
+}
+
+/// insert one or two CopySwap steps into a plan at positions derived from `b`
+pub fn apply_copy(plan: &mut DefPlan, b: u8) {
+    let at = (b as usize * (plan.ops.len() + 1)) >> 8;
+    plan.ops.insert(at, DefOp::CopySwap);
+    if b & 1 == 1 {
+        plan.ops.push(DefOp::CopySwap);
+    }
+    plan.cycles = plan.cycles.min(40);
+}
+
 pub fn gen_dict(t: &mut Tape, w: usize, data: &[u8]) -> Vec<u8> {
     let lens = [0usize, 1, 2, 3, 10, 100, 258, w - 263, w - 262, w - 261, w - 1, w, w + 1, 2 * w, 40000, 100000];
     let n = t.pick(&lens);
